@@ -70,7 +70,11 @@ pub fn blueprint(game: &Game, behaviour: u64, t: &mut Tape) -> Blueprint {
             };
             let mut st = ValveState::generate(t, ship, obsolete, appid, 12, 12);
             st.fit(goldsrc);
-            let quirk = super::c02::no_size_quirk(engine, st.protocol);
+            // Counter-Strike: Source servers of protocol 7 leave the size field out of split packets
+            if game.name == "Counter-Strike: Source" && t.draw(CFG, 2) == 0 {
+                st.protocol = 7;
+            }
+            let quirk = game.name == "Counter-Strike: Source" && st.protocol == 7;
             let enc = [vm::gen_enc(t, goldsrc, !quirk), vm::gen_enc(t, goldsrc, true), vm::gen_enc(t, goldsrc, true)];
             Blueprint::Valve { st, goldsrc, quirk, enc, players_silent: behaviour == 3, rules_silent: behaviour == 5 }
         }
